@@ -30,6 +30,10 @@ Theorem C17_closed_means_durable_partial : forall batch k h,
     = Some (expected k (snd (run writer_shapes batch k (w_init k) h))).
 Proof. intros batch k h. exact (closed_means_durable writer_shapes batch eq_refl k h). Qed.
 
+(* the full statement -- every closed history, no exclusion -- is false on the current tree *)
+Theorem C17_closed_means_durable_full_refuted : ~ durable_full writer_shapes.
+Proof. exact (durable_full_false writer_shapes eq_refl eq_refl). Qed.
+
 (* what SQLite returns is a permutation of what was written (nothing lost, nothing twice) *)
 Theorem C17_sqlite_order_is_permutation : forall rs, Permutation (expected ASqlite rs) rs.
 Proof. exact sqlite_order_perm. Qed.
@@ -157,6 +161,17 @@ Theorem C17_rotation_partial : forall batch (rot_name : path -> stamp -> path) k
 Proof.
   intros batch rot_name k pre clock ws Hk Hpre.
   exact (rotation_keeps_everything writer_shapes batch eq_refl rot_name k Hk pre Hpre clock ws).
+Qed.
+
+(* a sufficient condition for that hypothesis: the rotated names are used for nothing else (no pre-existing file, no
+   template path), rot_name is injective, and the rotation stamps are pairwise distinct per path *)
+Theorem C17_rotation_distinct_stamps : forall batch (rot_name : path -> stamp -> path) k pre clock ws,
+  (forall p s p' s', rot_name p s = rot_name p' s' -> p = p' /\ s = s') ->
+  (forall p s, ~ In (rot_name p s) (map fst pre ++ map fst ws)) ->
+  NoDup (map ren_pair (p_log (pt_final writer_shapes batch rot_name k pre clock ws))) ->
+  Forall no_overwrite (p_log (pt_final writer_shapes batch rot_name k pre clock ws)).
+Proof.
+  intros batch rot_name k pre clock ws. exact (rotation_distinct_stamps writer_shapes batch rot_name k pre clock ws).
 Qed.
 
 (* finding C17-rotation-same-second: paths A B A B A, the three rotations stamped with the same second: the second
